@@ -1,6 +1,7 @@
 """C20 - status/config words are faithful bit-field views of one register state."""
 import json
 import os
+import re
 
 from .. import pseudo
 from ..absint import Evaluator
@@ -9,6 +10,31 @@ from ..facts import AnalysisBroken, VERIF
 from ..norm import render, render_stmt, Renderer, short_fn
 
 RS = 'Teakra::RegisterState'
+
+
+def _delegate(ctx, f, depth=0):
+    """a proxy accessor that only forwards its own parameters, in order, to another accessor of the repo
+       (`Get(s) { return Redirector<...>::Get(s); }`) is judged by the accessor it forwards to"""
+    body = f.get('body') or {}
+    stmts = [x for x in body.get('body', []) if x.get('k') != 'null'] if body.get('k') == 'block' else []
+    if len(stmts) != 1 or depth > 3:
+        return f
+    st = stmts[0]
+    c = st.get('e') if st.get('k') == 'return' else st
+    while isinstance(c, dict) and c.get('k') == 'cast':
+        c = c.get('e')
+    if not (isinstance(c, dict) and c.get('k') == 'call' and c.get('obj') is None and c.get('fn') in ctx.F['functions']):
+        return f
+    g = ctx.F['functions'][c['fn']]
+    args = c.get('args', [])
+    if len(args) != len(f.get('params', [])) or len(args) != len(g.get('params', [])):
+        return f
+    for i, a in enumerate(args):
+        while isinstance(a, dict) and a.get('k') == 'cast':
+            a = a.get('e')
+        if not (isinstance(a, dict) and a.get('k') == 'ref' and a.get('dk') == 'parm' and a.get('idx') == i):
+            return f
+    return _delegate(ctx, g, depth + 1)
 
 
 def _slot_key(s):
@@ -119,8 +145,8 @@ def w4_proxies(ctx, W):
             pg = ctx.fn('%s::Get(const Teakra::RegisterState *)' % s['proxy_s'])
             ps = ctx.fn('%s::Set(Teakra::RegisterState *,unsigned short)' % s['proxy_s'])
             ctx.inst(R, 2)
-            gb = render_stmt(pg['body'], pg)
-            sb = render_stmt(ps['body'], ps)
+            gb = render_stmt(_delegate(ctx, pg)['body'], _delegate(ctx, pg))
+            sb = render_stmt(_delegate(ctx, ps)['body'], _delegate(ctx, ps))
             key = s['proxy_s'].replace('Teakra::', '')
             k = s['kind']
             if k in ('Redirector', 'RORedirector'):
@@ -177,9 +203,11 @@ def w4_proxies(ctx, W):
             else:
                 ctx.report(R, pg, pg['body'], key, 'unknown proxy kind')
                 continue
-            if gb != wg:
+            # a field named directly and the same field named through its member pointer are one and the same
+            canon = lambda t: re.sub(r'\(\. \$0 %s::(\w+)\)' % re.escape(RS), r'(->* $0 (& \1))', t) if isinstance(t, str) else t
+            if canon(gb) != canon(wg):
                 ctx.report(R, pg, pg['body'], key + '::Get', 'Get reads %s, expected %s' % (gb, wg))
-            if sb != wsb:
+            if canon(sb) != canon(wsb):
                 ctx.report(R, ps, ps['body'], key + '::Set', 'Set is %s, expected %s' % (sb, wsb))
     # RegisterState::Get<T>/Set<T> forward to T::Get/Set
     n = 0
